@@ -291,21 +291,32 @@ REPLAY_LAZY = r'''
 import sys, numpy as np
 from EasyFEA.Models.Elastic import _laws
 cls = getattr(_laws, %(cls)r)
-m = cls(%(dim)d, **%(init)r)
-cur = dict(%(init)r)
+def P(v):
+    return np.asarray(v, dtype=float) if isinstance(v, list) else float(v)
+held = {k: P(v) for k, v in %(init)r.items()}          # the user's own objects
+m = cls(%(dim)d, **held)
 for op in %(ops)r:
     if op[0] == "set":
-        setattr(m, op[1], op[2]); cur[op[1]] = op[2]
+        held[op[1]] = P(op[2]); setattr(m, op[1], held[op[1]])
+    elif op[0] == "set_copy":
+        held[op[1]] = np.array(held[op[1]], copy=True) if isinstance(held[op[1]], np.ndarray) else float(held[op[1]])
+        setattr(m, op[1], held[op[1]])
+    elif op[0] == "mutate_set":
+        if isinstance(held[op[1]], np.ndarray):
+            held[op[1]] *= op[2]                         # in place: same object
+        else:
+            held[op[1]] = held[op[1]] * op[2]
+        setattr(m, op[1], held[op[1]])                   # re-assign it
     elif op[0] == "notify":
         m.Need_Update()
-    elif op[0] == "readC":
-        got, ref, what = m.C, cls(%(dim)d, **cur).C, "C"
-    elif op[0] == "readS":
-        got, ref, what = m.S, cls(%(dim)d, **cur).S, "S"
-    if op[0].startswith("read"):
+    if op[0] in ("readC", "readS"):
+        fresh = cls(%(dim)d, **{k: (np.array(v, copy=True) if isinstance(v, np.ndarray) else v) for k, v in held.items()})
+        got, ref, what = (m.C, fresh.C, "C") if op[0] == "readC" else (m.S, fresh.S, "S")
         err = np.abs(got - ref).max() / np.abs(ref).max()
         if err > 1e-9:
-            print("after", op, "with current parameters", cur, ":", what, "read from the object differs from a freshly built law by", err)
+            print("after", op, ":", what, "read from the object differs from a freshly built law of the current parameters by", err)
+            print("current parameters as the object reports them:", {k: np.asarray(getattr(m, k)).ravel()[:3] for k in held})
+            print(what + "[...,0,0] read :", np.asarray(got)[..., 0, 0].ravel()[:3], " fresh:", np.asarray(ref)[..., 0, 0].ravel()[:3])
             sys.exit(1)
 print("every read reflected the current parameters")
 sys.exit(0)
@@ -397,11 +408,18 @@ def build_cases(ctx, lw):
                     params = {k: np.array([p[k] for p in pts]).reshape(shp).tolist() for k in keys}
                 else:
                     params = dict(pts[0])
-                akind = rng.choice(["id", "inplane", "3d", "3d"]) if cname != "Isotropic" else None
+                akind = rng.choice(["id", "inplane", "3d", "tilted"]) if cname != "Isotropic" else None
+                if cname != "Isotropic" and field == "scalar" and rep < 2:
+                    akind = "tilted"          # material axes out of the (x,y) plane for the 2-D models
                 axes = None
                 if akind:
-                    a, b = rand_axes(rng, akind)
-                    if rng.random() < 0.5:       # merely orthogonal: unnormalised lengths
+                    if akind == "tilted":
+                        a = [2.0, 1.0, 2.0] if rep == 0 else [round(rng.uniform(0.5, 2), 2), round(rng.uniform(-2, 2), 2), round(rng.uniform(0.5, 2), 2)]
+                        w = np.cross(a, [round(rng.uniform(-1, 1), 2), 1.0, round(rng.uniform(-1, 1), 2)])
+                        a, b = [float(x) for x in a], [float(x) for x in w]
+                    else:
+                        a, b = rand_axes(rng, akind)
+                    if akind != "tilted" and rng.random() < 0.5:       # merely orthogonal: unnormalised lengths
                         sa, sb = round(rng.uniform(0.3, 4), 2), round(rng.uniform(0.3, 4), 2)
                         a, b = [x * sa for x in a], [x * sb for x in b]
                     axes = [a, b]
@@ -409,6 +427,11 @@ def build_cases(ctx, lw):
                 for cfg, (dim, ps) in T_laws.CFGS.items():
                     req["law"].append({"cls": cname, "dim": dim, "ps": ps, "params": params, "axes": axes})
                     meta["law"].append({"cfg": cfg, "field": field, "shape": shp, "pts": pts, "group": grp, "akind": akind})
+                if axes is not None and not shp:
+                    req["law"].append({"cls": cname, "dim": 3, "ps": False, "params": params, "axes": [[1.0, 0.0, 0.0], [0.0, 1.0, 0.0]]})
+                    meta["law"].append({"cfg": "3d", "field": field, "shape": shp, "pts": pts, "group": len(req["law"]) - 1, "akind": "id-ref", "ref": True})
+                    for k in range(grp, grp + 3):
+                        meta["law"][k]["idref"] = len(req["law"]) - 1
     # ---- Get_Pmat
     for rep in range(6 if quick else 40):
         dim = rng.choice([2, 3])
@@ -458,37 +481,61 @@ def build_cases(ctx, lw):
             for voigt, Cin in ((True, Cv), (False, Ck)):
                 req["aniso"].append({"dim": dim, "C": Cin.tolist(), "voigt": voigt, "axes": [a, b]})
                 meta["aniso"].append({"dim": dim, "Ck": Ck, "axes": [a, b], "voigt": voigt})
-    # ---- lazy update
-    for rep in range(4 if quick else 25):
+    # ---- lazy update: scalar and array-valued (per element / per Gauss point) parameters; assignments of a
+    #      new object, of an equal-valued copy, and of THE SAME array after an in-place edit
+    for rep in range(6 if quick else 30):
         cname = rng.choice(["Isotropic", "TransverselyIsotropic"])
         dim = rng.choice([2, 3])
-        p0 = gen_params(rng, cname)
-        states = [dict(p0)]
+        fshape = [(), (3,), (2, 3)][rep % 3]
+        npts = int(np.prod(fshape)) if fshape else 1
+
+        def field_of(vals):
+            return np.array(vals).reshape(fshape).tolist() if fshape else vals[0]
+        pts = [gen_params(rng, cname) for _ in range(npts)]
+        names = list(pts[0].keys())
+        arrname = "E" if cname == "Isotropic" else "El"      # the array-valued parameter
+        cur = {k: (field_of([p[k] for p in pts]) if k == arrname else pts[0][k]) for k in names}
+        states = [json.loads(json.dumps(cur))]
         ops, mops = [], []
-        cur = dict(p0)
-        for _ in range(rng.randint(3, 12)):
+        for step in range(rng.randint(4, 12)):
             k = rng.random()
-            if k < 0.45:
-                newp = gen_params(rng, cname)
-                name = rng.choice(list(newp.keys()))
+            if step == 1:
+                k = 0.3          # make sure the aliasing assignment occurs after a read
+            if step == 0:
+                k = 0.6
+            if k < 0.2:          # new object
+                newp = [gen_params(rng, cname) for _ in range(npts)]
+                name = rng.choice(names)
+                val = field_of([q[name] for q in newp]) if name == arrname else newp[0][name]
                 cand = dict(cur)
-                cand[name] = newp[name]
-                if cname == "TransverselyIsotropic" and not ((1 - cand["vt"]) * cand["El"] - 2 * cand["vl"] ** 2 * cand["Et"] > 0.2 * cand["El"]):
+                cand[name] = val
+                if cname == "TransverselyIsotropic" and not np.all((1 - np.asarray(cand["vt"])) * np.asarray(cand["El"]) - 2 * np.asarray(cand["vl"]) ** 2 * np.asarray(cand["Et"]) > 0.2 * np.asarray(cand["El"])):
                     continue
                 cur = cand
-                states.append(dict(cur))
-                ops.append(["set", name, cur[name]])
-                mops.append(("set", len(states) - 1))
-            elif k < 0.9:
+                states.append(json.loads(json.dumps(cur)))
+                ops.append(["set", name, val])
+                mops.append(("set", False, len(states) - 1))
+            elif k < 0.4:        # edit the same array in place, re-assign the same object
+                fac = rng.choice([2.0, 0.5, 1.5])
+                cur = dict(cur)
+                cur[arrname] = (np.asarray(cur[arrname]) * fac).tolist()
+                states.append(json.loads(json.dumps(cur)))
+                ops.append(["mutate_set", arrname, fac])
+                mops.append(("set", True, len(states) - 1))
+            elif k < 0.5:        # equal-valued copy
+                states.append(json.loads(json.dumps(cur)))
+                ops.append(["set_copy", arrname])
+                mops.append(("set", False, len(states) - 1))
+            elif k < 0.92:
                 ops.append([rng.choice(["readC", "readS"])])
                 mops.append(("read", ops[-1][0]))
             else:
                 ops.append(["notify"])
                 mops.append(("notify",))
-        ops.append(["readC"])
-        mops.append(("read", "readC"))
-        req["lazy"].append({"cls": cname, "dim": dim, "init": p0, "ops": ops})
-        meta["lazy"].append({"cls": cname, "dim": dim, "states": states, "mops": mops})
+        ops += [["readC"], ["readS"]]
+        mops += [("read", "readC"), ("read", "readS")]
+        req["lazy"].append({"cls": cname, "dim": dim, "init": states[0], "ops": ops})
+        meta["lazy"].append({"cls": cname, "dim": dim, "states": states, "mops": mops, "fshape": fshape})
     # ---- boundary of the descriptor ranges: the value 0 passes PositiveParameter
     req["boundary"] = [{"cls": "Isotropic", "dim": 3, "params": {"E": 0.0, "v": 0.3}},
                        {"cls": "Isotropic", "dim": 2, "params": {"E": 0.0, "v": 0.3}},
@@ -499,9 +546,14 @@ def build_cases(ctx, lw):
 def correspondence(ctx, lw, pm):
     req, meta = build_cases(ctx, lw)
     # P for the Apply_Pmat cases comes from the model (so Apply_Pmat is tested on its own)
+    have = lw is not None and pm is not None
+    ctx.cov["corr_mode"] = "translated model + property predicates" if have else "property predicates only (translation failed)"
     for c in req["apply"]:
         a, b = c.pop("axes")
-        c["P"] = fl(pmat_model(pm, [D(x) for x in a], [D(x) for x in b])).tolist()
+        if pm is not None:
+            c["P"] = fl(pmat_model(pm, [D(x) for x in a], [D(x) for x in b])).tolist()
+        else:
+            c["P"] = np.linalg.qr(np.array([[ctx.rng.gauss(0, 1) for _ in range(6)] for _ in range(6)]))[0].tolist()
     rc, out, err = ctx.impl_python(os.path.join(common.VERIF, "corr", "c11_impl.py"), input=json.dumps(req), timeout=900)
     if rc != 0:
         ctx.obligation("corr:impl-run", False, err[-1500:])
@@ -519,7 +571,7 @@ def correspondence(ctx, lw, pm):
     # ---------------- laws
     for i, (c, m, r) in enumerate(zip(req["law"], meta["law"], impl["law"])):
         cname, cfg = c["cls"], m["cfg"]
-        count("law:%s:%s:%s" % (lw["classes"][cname]["short"], cfg, m["field"]))
+        count("law:%s:%s:%s:%s" % (T_laws.CLASSES[cname], cfg, m["field"], "tilted-axes" if m["akind"] == "tilted" else "axes" if c["axes"] else "noaxes"))
         if "raises" in r:
             mism.append(("law#%d %s[%s]" % (i, cname, cfg), "implementation raised " + r["raises"]))
             continue
@@ -532,17 +584,18 @@ def correspondence(ctx, lw, pm):
         Cf, Sf = Ci.reshape((-1, n, n)), Si.reshape((-1, n, n))
         worst = 0.0
         for k, p in enumerate(m["pts"]):
-            Cm, Sm = law_model(lw, pm, cname, cfg, p, c["axes"])
-            if cname == "Isotropic":
-                Sm = iso_S_spec(cfg, p["E"], p["v"])
-            if Cm is not None:
-                worst = max(worst, relerr(Cf[k], fl(Cm)))
-            else:
-                worst = max(worst, relerr(Cf[k] @ fl(Sm), np.eye(n)) / 10)
-            if Sm is not None:
-                worst = max(worst, relerr(Sf[k], fl(Sm)))
-            else:
-                worst = max(worst, relerr(fl(Cm) @ Sf[k], np.eye(n)) / 10)
+            if have:
+                Cm, Sm = law_model(lw, pm, cname, cfg, p, c["axes"])
+                if cname == "Isotropic":
+                    Sm = iso_S_spec(cfg, p["E"], p["v"])
+                if Cm is not None:
+                    worst = max(worst, relerr(Cf[k], fl(Cm)))
+                else:
+                    worst = max(worst, relerr(Cf[k] @ fl(Sm), np.eye(n)) / 10)
+                if Sm is not None:
+                    worst = max(worst, relerr(Sf[k], fl(Sm)))
+                else:
+                    worst = max(worst, relerr(fl(Cm) @ Sf[k], np.eye(n)) / 10)
             # property predicates on the implementation's own output
             eCS = float(np.abs(Cf[k] @ Sf[k] - np.eye(n)).max())
             asym = float(np.abs(Cf[k] - Cf[k].T).max() / np.abs(Cf[k]).max())
@@ -554,12 +607,12 @@ def correspondence(ctx, lw, pm):
                              {"replay_py": REPLAY_LAW % dict(case=one, expected=None), "case": one}))
         if worst > TOL:
             one = dict(c, params=m["pts"][0])
-            Cm0, _ = law_model(lw, pm, cname, cfg, m["pts"][0], c["axes"])
+            Cm0, _ = law_model(lw, pm, cname, cfg, m["pts"][0], c["axes"]) if have else (None, None)
             mism.append(("law#%d %s[%s] %s" % (i, cname, cfg, m["field"]), "relative difference %.2e (params %s, axes %s)" % (worst, m["pts"][0], c["axes"]),
                          {"replay_py": REPLAY_LAW % dict(case=one, expected=(fl(Cm0).tolist() if Cm0 is not None and not shp else None)), "case": one}))
         ctx.note_case("law:%s:%s:%s:%s" % (cname, cfg, m["field"], m["akind"]))
         # plane reductions on the implementation's outputs (3d case is first of its group)
-        if cfg != "3d":
+        if cfg != "3d" and not m.get("ref"):
             r3 = impl["law"][m["group"]]
             if "raises" not in r3:
                 C3, S3 = np.array(r3["C"]), np.array(r3["S"])
@@ -577,17 +630,34 @@ def correspondence(ctx, lw, pm):
                     else:
                         viol.append(("plane-reduction:%s:%s" % (cname, cfg), "%s: %s (rel. %.2e) heterogeneous parameters, first point %s" % (cname, what, e, m["pts"][0]),
                                      {"case": one, "note": what}))
+            # plane stress: the 3-D state induced by an in-plane stress has sigma_zz = sigma_yz = sigma_xz = 0,
+            # its in-plane strains are those of the 2-D law, and the 2-D stiffness gives the stress back
+            if cfg == "ps" and "raises" not in r3 and not shp:
+                C3, S3 = np.array(r3["C"]), np.array(r3["S"])
+                sg = np.array([1.3, -0.7, 0.0, 0.0, 0.0, 0.9])
+                eps3 = S3 @ sg
+                back3 = C3 @ eps3
+                e1 = float(np.abs(back3[[2, 3, 4]]).max())
+                e2 = float(np.abs(eps3[IDX] - Si @ sg[IDX]).max() / np.abs(eps3).max())
+                e3 = float(np.abs(Ci @ eps3[IDX] - sg[IDX]).max())
+                if max(e1, e2, e3) > PTOL:
+                    one = dict(c, params=m["pts"][0])
+                    viol.append(("plane-stress-state:%s" % cname,
+                                 "%s plane stress, axes %s: induced 3-D state has out-of-plane stresses %.2e, in-plane strain mismatch %.2e, C2d*eps - sigma = %.2e"
+                                 % (cname, c["axes"], e1, e2, e3), {"replay_py": REPLAY_LAW % dict(case=one, expected=None), "case": one}))
         # frame consistency: the law with axes (a,b) is the tensor rotation of the law with identity axes
-        if cname != "Isotropic" and cfg == "3d" and not shp:
-            C0, _ = law_model(lw, pm, cname, "3d", m["pts"][0], [[1, 0, 0], [0, 1, 0]])
-            e = relerr(Ci, rotate_kelvin(fl(C0), c["axes"][0], c["axes"][1]))
+        # (reference: the implementation's own law with identity axes; independent of Get_Pmat)
+        if cname != "Isotropic" and cfg == "3d" and not shp and not m.get("ref") and "idref" in m and "raises" not in impl["law"][m["idref"]]:
+            C0 = np.array(impl["law"][m["idref"]]["C"])
+            Cr = rotate_kelvin(C0, c["axes"][0], c["axes"][1])
+            e = relerr(Ci, Cr)
             if e > PTOL:
                 one = dict(c, params=m["pts"][0])
                 viol.append(("frame-rotation:%s" % cname, "%s: C for axes %s is not the rotated 4th-order tensor (rel. %.2e)" % (cname, c["axes"], e),
-                             {"replay_py": REPLAY_LAW % dict(case=one, expected=rotate_kelvin(fl(C0), c["axes"][0], c["axes"][1]).tolist()), "case": one}))
+                             {"replay_py": REPLAY_LAW % dict(case=one, expected=Cr.tolist()), "case": one}))
     # ---------------- isotropic helpers
     for i, (c, m, r) in enumerate(zip(req["law"], meta["law"], impl["law"])):
-        if c["cls"] == "Isotropic" and "lambda" in r:
+        if have and c["cls"] == "Isotropic" and "lambda" in r:
             rec = lw["classes"]["Isotropic"]["cfg"][m["cfg"]]
             for k, p in enumerate(m["pts"]):
                 env = {"E": D(p["E"]), "v": D(p["v"])}
@@ -608,8 +678,7 @@ def correspondence(ctx, lw, pm):
         for key in (["P"] if c["mandel"] else ["Ps", "Pe"]):
             Pi = np.array(r[key]).reshape((-1, n, n))
             for k, (a, b) in enumerate(zip(m["A"], m["B"])):
-                Pm = fl(pmat_model(pm, [D(x) for x in a], [D(x) for x in b], key))
-                e = relerr(Pi[k], Pm)
+                e = relerr(Pi[k], fl(pmat_model(pm, [D(x) for x in a], [D(x) for x in b], key))) if pm is not None else 0.0
                 if e > TOL:
                     mism.append(("pmat#%d %s" % (i, key), "axes %s %s: relative difference %.2e" % (a, b, e)))
                 if key == "P":
@@ -626,13 +695,15 @@ def correspondence(ctx, lw, pm):
             mism.append(("apply#%d" % i, r["raises"]))
             continue
         P, M = np.array(c["P"]), np.array(c["M"])
-        mean = pm["apply"][c["toGlobal"]]["meaning"]
+        mean = pm["apply"][c["toGlobal"]]["meaning"] if pm is not None else ("PMPt" if c["toGlobal"] else "PtMP")
         Rm = P @ M @ P.T if mean == "PMPt" else P.T @ M @ P
         e = relerr(r["R"], Rm)
         if e > TOL:
             mism.append(("apply#%d toGlobal=%s" % (i, c["toGlobal"]), "relative difference %.2e" % e))
     for i, (c, r) in enumerate(zip(req["km"], impl["km"])):
-        T = fl(mat_ev(pm["km"][c["dim"]], {"r2": R2}))
+        r2f = math.sqrt(2)
+        dd = np.array([1, 1, r2f]) if c["dim"] == 2 else np.array([1, 1, 1, r2f, r2f, r2f])
+        T = fl(mat_ev(pm["km"][c["dim"]], {"r2": R2})) if pm is not None else np.outer(dd, dd)
         e = relerr(r["R"], np.array(c["M"]) * T)
         ctx.note_case("km:%d" % c["dim"])
         if e > TOL:
@@ -648,7 +719,7 @@ def correspondence(ctx, lw, pm):
             mism.append(("aniso#%d" % i, "raised %s" % (rv.get("raises") or rk.get("raises"))))
             continue
         # model: rotate the (embedded) Kelvin-Mandel matrix, translated structure for each flag
-        for c, r, flag in ((cv, rv, True), (ck, rk, False)):
+        for c, r, flag in (((cv, rv, True), (ck, rk, False)) if have else ()):
             desc = lw["aniso"][(m["dim"], flag)]
             Cin = np.array(c["C"])
             d = np.array([1, 1, 1] + [math.sqrt(2)] * 3) if m["dim"] == 3 else np.array([1, 1, math.sqrt(2)])
@@ -674,16 +745,23 @@ def correspondence(ctx, lw, pm):
                          {"replay_py": REPLAY_ANISO % dict(Cv=cv["C"]), "Cvoigt": cv["C"]}))
         # frame consistency (Kelvin input): rotated tensor
         Ck = m["Ck"]
+        if m["dim"] == 2:
+            emb = np.zeros((6, 6))
+            emb[np.ix_(IDX, IDX)] = Ck
+            e = relerr(rk["C"], rotate_kelvin(emb, m["axes"][0], m["axes"][1])[np.ix_(IDX, IDX)])
+            if e > PTOL:
+                viol.append(("aniso-frame-rotation-2d", "Anisotropic 2-D: C is not the in-plane part of the rotated tensor (rel. %.2e)" % e, {"axes": m["axes"]}))
         if m["dim"] == 3:
             e = relerr(rk["C"], rotate_kelvin(Ck, m["axes"][0], m["axes"][1]))
             if e > PTOL:
                 viol.append(("aniso-frame-rotation", "Anisotropic 3-D: C is not the rotated tensor (rel. %.2e)" % e, {"axes": m["axes"]}))
-    # ---------------- lazy update: Coq model tells which parameter state each read must reflect
+    # ---------------- lazy update: the Coq model tells which parameter CONTENTS each read must reflect; the
+    #                  implementation's read is compared with a freshly built law (and with the translated model)
     lines = []
     for k, m in enumerate(meta["lazy"]):
         ops = []
         for o in m["mops"]:
-            ops.append("SetParam nat %d" % o[1] if o[0] == "set" else "Read nat" if o[0] == "read" else "NotifyOnly nat")
+            ops.append("SetParam nat %s %d" % ("true" if o[1] else "false", o[2]) if o[0] == "set" else "Read nat" if o[0] == "read" else "NotifyOnly nat")
         lines.append("Eval vm_compute in (run_reads 0%%nat [%s])." % "; ".join(ops))
     body = "From Coq Require Import List.\nFrom EFModel Require Import C11_Lazy.\nImport ListNotations.\n" + "\n".join(lines) + "\n"
     rc2, out2 = ctx.coq_eval("C11_lazy_cases.v", body, timeout=300)
@@ -694,8 +772,12 @@ def correspondence(ctx, lw, pm):
     else:
         for k, (m, r, e) in enumerate(zip(meta["lazy"], impl["lazy"], exp)):
             ids = [int(x) for x in re.findall(r"Some (\d+)", e)]
-            ctx.note_case("lazy:%s:%d:%d" % (m["cls"], m["dim"], len(m["mops"])))
-            count("lazy:%s" % m["cls"])
+            kinds_ops = sorted(set(o[0] for o in req["lazy"][k]["ops"]))
+            ctx.note_case("lazy:%s:%d:%s:%s" % (m["cls"], m["dim"], m["fshape"], "+".join(kinds_ops)))
+            count("lazy:%s:%s" % (m["cls"], {0: "scalar", 1: "per-element", 2: "per-gauss"}[len(m["fshape"])]))
+            for o in req["lazy"][k]["ops"]:
+                if o[0] in ("mutate_set", "set_copy", "set"):
+                    count("lazy-op:" + o[0])
             if "raises" in r:
                 mism.append(("lazy#%d" % k, r["raises"]))
                 continue
@@ -704,22 +786,42 @@ def correspondence(ctx, lw, pm):
                 mism.append(("lazy#%d" % k, "number of reads"))
                 continue
             cfg = "3d" if m["dim"] == 3 else "ps"
-            for (sid, got, kind) in zip(ids, r["reads"], kinds):
-                Cm, Sm = law_model(lw, pm, m["cls"], cfg, m["states"][sid], [[1, 0, 0], [0, 1, 0]] if m["cls"] != "Isotropic" else None)
-                if m["cls"] == "Isotropic":
-                    Sm = iso_S_spec(cfg, m["states"][sid]["E"], m["states"][sid]["v"])
-                ref = Cm if kind == "readC" else Sm
-                n = 3 if cfg != "3d" else 6
-                if ref is None:
-                    other = fl(Sm if kind == "readC" else Cm)
-                    e_ = relerr(np.array(got) @ other, np.eye(n))
-                else:
-                    e_ = relerr(got, fl(ref))
+            n = 3 if cfg != "3d" else 6
+            nread = 0
+            for (sid, got, fresh, kind) in zip(ids, r["reads"], r["fresh"], kinds):
+                nread += 1
+                got, fresh = np.array(got), np.array(fresh)
+                e_ = relerr(got, fresh)
+                st = m["states"][sid]
+                if have and e_ <= 1e-9:
+                    # the fresh law itself must be the law of the contents the model says are in force
+                    npts = int(np.prod(m["fshape"])) if m["fshape"] else 1
+                    G = got.reshape((-1, n, n))
+                    for q in range(npts):
+                        pq = {a_: (np.asarray(v_, dtype=float).reshape(-1)[q] if np.ndim(v_) else v_) for a_, v_ in st.items()}
+                        pq = {a_: float(v_) for a_, v_ in pq.items()}
+                        Cm, Sm = law_model(lw, pm, m["cls"], cfg, pq, [[1, 0, 0], [0, 1, 0]] if m["cls"] != "Isotropic" else None)
+                        if m["cls"] == "Isotropic":
+                            Sm = iso_S_spec(cfg, pq["E"], pq["v"])
+                        ref = Cm if kind == "readC" else Sm
+                        if ref is None:
+                            e_ = max(e_, relerr(G[q] @ fl(Sm if kind == "readC" else Cm), np.eye(n)))
+                        else:
+                            e_ = max(e_, relerr(G[q], fl(ref)))
                 if e_ > 1e-9:
+                    upto = []
+                    cnt = 0
+                    for o in req["lazy"][k]["ops"]:
+                        upto.append(o)
+                        if o[0].startswith("read"):
+                            cnt += 1
+                            if cnt == nread:
+                                break
                     viol.append(("lazy-update:%s" % m["cls"],
-                                 "%s: after ops %s a read of %s does not reflect the current parameters %s (rel. %.2e)" % (m["cls"], req["lazy"][k]["ops"], kind[4:], m["states"][sid], e_),
-                                 {"replay_py": REPLAY_LAZY % dict(cls=m["cls"], dim=m["dim"], init=req["lazy"][k]["init"], ops=req["lazy"][k]["ops"]),
-                                  "ops": req["lazy"][k]["ops"], "init": req["lazy"][k]["init"], "cls": m["cls"], "dim": m["dim"]}))
+                                 "%s (%s parameters): after ops %s a read of %s does not reflect the current parameter contents (rel. %.2e vs a freshly built law)"
+                                 % (m["cls"], {0: "scalar", 1: "per-element", 2: "per-Gauss-point"}[len(m["fshape"])], [o[:2] for o in upto], kind[4:], e_),
+                                 {"replay_py": REPLAY_LAZY % dict(cls=m["cls"], dim=m["dim"], init=req["lazy"][k]["init"], ops=upto),
+                                  "ops": upto, "init": req["lazy"][k]["init"], "cls": m["cls"], "dim": m["dim"]}))
                     break
     # ---------------- boundary: value 0 is accepted by PositiveParameter; no law may come out
     for c, r in zip(req["boundary"], impl["boundary"]):
@@ -757,47 +859,81 @@ def run(ctx):
         ctx.obligation("static-lib", False, log[-1500:])
         ctx.violation("static-lib-build", "coq/lib or coq/model does not build", {"log": log[-3000:]}, found_input=False)
         return
+    pm = lw = None
     try:
         pm = T_pmat.read_pmat(ctx.repo)
-        lw = T_laws.read_laws(ctx.repo)
-        gen_p, gen_l = T_pmat.emit_coq(pm), T_laws.emit_coq(lw)
+        gen_p = T_pmat.emit_coq(pm)
+        ctx.obligation("translate:pmat", True, "Get_Pmat 2D/3D, Apply_Pmat, KelvinMandel_Matrix")
     except (TranslateError, SyntaxError, OSError) as ex:
+        pm = None
+        ctx.obligation("translate:pmat", False, str(ex))
+        ctx.violation("translate:pmat", "translator rejected Models/_utils.py (theorems not re-established; the correspondence still runs on the property predicates): %s" % ex,
+                      {"construct": str(ex)}, found_input=False)
+    try:
+        lw = T_laws.read_laws(ctx.repo)
+        gen_l = T_laws.emit_coq(lw)
+        ctx.obligation("translate", True, "3 law classes x 3 configurations, Anisotropic")
+        ctx.cov["descriptor_ranges"] = {c: {p: ["%s %s" % (o, b) for o, b in cs] for p, cs in r["params"].items()} for c, r in lw["classes"].items()}
+    except (TranslateError, SyntaxError, OSError) as ex:
+        lw = None
         ctx.obligation("translate", False, str(ex))
-        ctx.violation("translate", "translator rejected the source: %s" % ex, {"construct": str(ex)}, found_input=False)
-        return
-    ctx.obligation("translate", True, "3 law classes x 3 configurations, Anisotropic, Get_Pmat 2D/3D, Apply_Pmat, KelvinMandel_Matrix")
-    ctx.cov["descriptor_ranges"] = {c: {p: ["%s %s" % (o, b) for o, b in cs] for p, cs in r["params"].items()} for c, r in lw["classes"].items()}
+        ctx.violation("translate", "translator rejected the source (theorems not re-established; the correspondence still runs on the property predicates): %s" % ex,
+                      {"construct": str(ex)}, found_input=False)
+    try:
+        wiring = T_laws.read_lazy_wiring(ctx.repo)
+        ctx.obligation("translate:lazy-wiring", True, "_Parameter.__set__ (line %d) reaches Need_Update() unconditionally; C/S getters as modelled" % wiring["set_line"])
+    except (TranslateError, SyntaxError, OSError) as ex:
+        ctx.obligation("translate:lazy-wiring", False, str(ex))
+        ctx.violation("translate:lazy-wiring", "the lazy-update control flow is not the one the model EFModel.C11_Lazy assumes (C11_lazy_update no longer speaks about this code): %s" % ex,
+                      {"construct": str(ex)}, found_input=False)
     ctx.cov["conditional_spd_conditions"] = {
         "TransverselyIsotropic": "El,Et,Gl <> 0 and (1-vt)*El - 2*vl^2*Et > 0 (kt > 0; not enforced by the constructor)",
         "Orthotropic": "all moduli <> 0, E3*v23^2 < E2 (asserted in _Behavior) and c_ij denominator < 0 (not enforced)"}
-    open(os.path.join(ctx.build, "Gen_Pmat.v"), "w").write(gen_p)
-    open(os.path.join(ctx.build, "Gen_Laws.v"), "w").write(gen_l)
     ctx.copy_props("C11/C11_wf.v", "C11/C11_laws.v", "C11/C11_pmat.v", "C11/C11_pmat_norm.v", "C11/C11_aniso.v", "C11/C11_aniso3d.v", "C11/C11_lazy.v", "C11/C11_rot.v")
-    g = ctx.coq(["Gen_Pmat.v", "Gen_Laws.v", "C11_wf.v"], timeout=300, count=False)
-    if not g.ok:
-        ctx.obligation("generated-files-compile", False, g.log[-1500:])
-        ctx.violation("generated-files", "the regenerated Coq definitions do not compile", {"log": g.log[-3000:]}, found_input=False)
-        return
     res = {}
+    holder = {}
 
     def job(name, files, timeout=900):
         res[name] = ctx.coq(files, timeout=timeout)
-    th = [threading.Thread(target=job, args=("laws", ["C11_laws.v"])),
-          threading.Thread(target=job, args=("pmat", ["C11_pmat.v", "C11_pmat_norm.v"])),
-          threading.Thread(target=job, args=("lazy", ["C11_lazy.v"])),
-          threading.Thread(target=job, args=("aniso", ["C11_aniso.v"])),
-          threading.Thread(target=job, args=("aniso3d", ["C11_aniso3d.v"])),
-          threading.Thread(target=job, args=("rot", ["C11_rot.v"]))]
+
+    def corr_job():
+        holder["viol"] = correspondence(ctx, lw, pm)
+    tc = threading.Thread(target=corr_job)
+    tc.start()
+    th = [threading.Thread(target=job, args=("lazy", ["C11_lazy.v"]))]
+    coq_ok = False
+    if pm is not None:
+        open(os.path.join(ctx.build, "Gen_Pmat.v"), "w").write(gen_p)
+        files = ["Gen_Pmat.v", "C11_wf.v"]
+        if lw is not None:
+            open(os.path.join(ctx.build, "Gen_Laws.v"), "w").write(gen_l)
+            files = ["Gen_Pmat.v", "Gen_Laws.v", "C11_wf.v"]
+        g = ctx.coq(files, timeout=300, count=False)
+        if not g.ok:
+            ctx.obligation("generated-files-compile", False, g.log[-1500:])
+            ctx.violation("generated-files", "the regenerated Coq definitions do not compile", {"log": g.log[-3000:]}, found_input=False)
+        else:
+            coq_ok = True
+            th += [threading.Thread(target=job, args=("pmat", ["C11_pmat.v", "C11_pmat_norm.v"])),
+                   threading.Thread(target=job, args=("rot", ["C11_rot.v"]))]
+            if lw is not None:
+                th += [threading.Thread(target=job, args=("laws", ["C11_laws.v"])),
+                       threading.Thread(target=job, args=("aniso", ["C11_aniso.v"])),
+                       threading.Thread(target=job, args=("aniso3d", ["C11_aniso3d.v"]))]
+    if not (coq_ok and lw is not None):
+        ctx.obligation("coqc:skipped:law-theorems", False, "translation failed: the theorem files were not compiled against this tree")
     for t in th:
         t.start()
     for t in th:
         t.join()
+    tc.join()
     # C11_pmat_norm.v is compiled right after C11_pmat.v; tell the two apart
-    if res["pmat"].failed_file == "C11_pmat_norm.v":
-        res["norm"] = res["pmat"]
-        res["pmat"] = common.CoqResult()
-    elif res["pmat"].ok:
-        res["norm"] = res["pmat"]
+    if "pmat" in res:
+        if res["pmat"].failed_file == "C11_pmat_norm.v":
+            res["norm"] = res["pmat"]
+            res["pmat"] = common.CoqResult()
+        elif res["pmat"].ok:
+            res["norm"] = res["pmat"]
     ctx.sample({"theorem": "iso_spd_3d : forall r2 E v, r2*r2 = 2 -> iso_ok E v -> posdef (iso_3d_C r2 E v) 6",
                 "proof": "closed form by field, then the proved block Sylvester criterion posdef_block33_diag"})
     ctx.sample({"theorem": "pmat3_orthogonal : forall axes r2, r2*r2=2 -> unit_orth3 axes -> P P^T = I /\\ P^T P = I", "proof": "nsatz, 72 entries"})
@@ -825,8 +961,8 @@ def run(ctx):
                           {"replay_py": REPLAY_ANISO % dict(Cv=Cv), "obligation": "aniso_voigt_kelvin_consistent_3d"}, found_input=True)
         else:
             ctx.violation("proof-broken:C11_aniso3d.v", "aniso_voigt_kelvin_consistent_3d no longer checks and no witness was found", {"log": res["aniso3d"].log[-3000:]}, found_input=False)
-    # ---- correspondence (+ property predicates on the implementation's outputs = the search)
-    viol = correspondence(ctx, lw, pm)
+    # ---- correspondence (+ property predicates on the implementation's outputs = the search) ran in parallel
+    viol = holder.get("viol")
     # ---- other broken proofs: report (the predicates above give the failing input if the property is violated)
     for name in ("laws", "pmat", "lazy", "aniso", "rot"):
         r = res.get(name)
